@@ -23,6 +23,8 @@ func checkC10(c *Ctx) {
 	c.Rule("R10.2", "marshaler failures become '<key>Error'; no encoder/marshaler error dropped", 15)
 	c.Rule("R10.3", "output stays well-formed on failure: closers on the error path; reflected value encoded before any write", 12)
 	c.Rule("R10.4", "all cores, all sinks, all errors: exhaustive loops folding errors; aggregate reported; sink error returned", 9)
+	c.Rule("R10.6", "Config.Build: the caller's options take effect after the configuration's (a caller-supplied ErrorOutput is the one write failures are reported on)", 1)
+	c10BuildOptionOrder(c, "R10.6")
 	c.Rule("R10.5", "the logger's error output is threaded into every entry that will be written", 1)
 
 	c10Recover(c, "R10.1")
@@ -658,4 +660,102 @@ func c10Reflected(c *Ctx, rule string) {
 		c.Check(len(early) == 0 && errRetOK, rule, fn.String(), "encodes-before-writing", enc.Pos(), "the reflected value is encoded before the key/separator is written and an encoding error returns with the line untouched (writes before encoding: %v)", early)
 	}
 
+}
+
+// c10BuildOptionOrder: Config.Build applies the options derived from the configuration first and the caller's options
+// after them, so an option the caller passes (zap.ErrorOutput for the sink that reports write failures, for one) is
+// not overwritten by the configuration's.
+func c10BuildOptionOrder(c *Ctx, rule string) {
+	fn := c.Method(ZapPath, "Config", "Build")
+	if !c.Anchor(rule, "zap.Config.Build", fn != nil && len(fn.Params) == 2) {
+		return
+	}
+	opts := fn.Params[1]
+	resolve := func(st *ConcState, v ssa.Value) ssa.Value {
+		for k := 0; k < 16 && v != nil; k++ {
+			if ct, ok := v.(*ssa.ChangeType); ok {
+				v = ct.X
+				continue
+			}
+			nx := st.Step(v)
+			if nx == nil {
+				break
+			}
+			v = nx
+		}
+		return v
+	}
+	var describe func(st *ConcState, v ssa.Value, d int) string
+	describe = func(st *ConcState, v ssa.Value, d int) string {
+		r := resolve(st, v)
+		if r == ssa.Value(opts) {
+			return "caller"
+		}
+		if sl, ok := r.(*ssa.Slice); ok && d < 4 {
+			return describe(st, sl.X, d+1)
+		}
+		if cl, ok := r.(*ssa.Call); ok && d < 4 {
+			if IsCallTo(cl, "(go.uber.org/zap.Config).buildOptions") {
+				return "config"
+			}
+			if CallBuiltin(cl) == "append" && len(cl.Call.Args) == 2 {
+				tail := describe(st, cl.Call.Args[1], d+1)
+				if _, elems := appendParts(cl); len(elems) > 0 {
+					tail = "extra"
+				}
+				return describe(st, cl.Call.Args[0], d+1) + "+" + tail
+			}
+		}
+		if n, known := st.IsNil(r); known && n {
+			return "none"
+		}
+		if _, ok := r.(*ssa.MakeSlice); ok {
+			return "none"
+		}
+		return "?" + st.Desc(v)
+	}
+	seqs, trunc := ConcPaths(fn, ConcCfg{
+		Prune: true,
+		Event: func(in ssa.Instruction, st *ConcState) string {
+			x, ok := in.(*ssa.Call)
+			if !ok {
+				return ""
+			}
+			switch {
+			case IsCallTo(x, "go.uber.org/zap.New"):
+				return "new(" + describe(st, Args(x)[1], 0) + ")"
+			case IsCallTo(x, "(*go.uber.org/zap.Logger).WithOptions"):
+				return "with(" + describe(st, Args(x)[1], 0) + ")"
+			}
+			return ""
+		},
+		Inline: func(h *ssa.Function) bool { return !strings.HasSuffix(h.String(), ".buildOptions") && h.Name() != "WithOptions" && h.Name() != "New" },
+	})
+	if trunc || len(seqs) == 0 {
+		c.Und(rule, fn.String(), "caller-options-last", fn.Pos(), "path exploration incomplete (%d sequences)", len(seqs))
+		return
+	}
+	var bad []string
+	built := 0
+	for _, sq := range seqs {
+		if sq == "" {
+			continue // an error return before anything is built
+		}
+		// the order in which option lists take effect
+		var order []string
+		for _, t := range strings.Split(sq, " ; ") {
+			body := t[strings.Index(t, "(")+1 : len(t)-1]
+			for _, p := range strings.Split(body, "+") {
+				if p != "none" {
+					order = append(order, p)
+				}
+			}
+		}
+		built++
+		got := strings.Join(order, ",")
+		if got != "config" && got != "config,caller" {
+			bad = append(bad, sq)
+		}
+	}
+	c.Check(len(bad) == 0 && built > 0, rule, fn.String(), "caller-options-last", fn.Pos(), "on every path that builds a logger the configuration's options take effect first and the caller's after them (so the caller's ErrorOutput, hooks, … win): %v", bad)
 }
